@@ -181,7 +181,7 @@ func c11Catalogue() []c11case {
 }
 
 func C11_Jobs() []string {
-	out := []string{"catalogue/en", "catalogue/es", "catalogue/default", "precedence", "i18n", "value-ref", "multi-param", "decode-twice"}
+	out := []string{"catalogue/en", "catalogue/es", "catalogue/default", "precedence", "i18n", "value-ref", "multi-param", "decode-twice", "global-roots", "exec-roots", "i18n-reinstall"}
 	return out
 }
 func C11_Covers() []string { return []string{"catalogue-case", "precedence-case"} }
@@ -301,6 +301,129 @@ func C11_Run(job string) {
 		}
 		v.Cover("precedence-case")
 		v.Assert(errs[0].Message == want, "C11:message-precedence")
+	case "global-roots", "exec-roots":
+		// the formatter in force (global, or this execution's) formats the issues of EVERY kind of
+		// root schema, in Parse and in Validate
+		old := conf.IssueFormatter
+		var opts []z.ExecOption
+		if a == "global-roots" {
+			conf.IssueFormatter = func(e *z.ZogIssue, c z.Ctx) { e.SetMessage("F:" + e.Code) }
+		} else {
+			opts = append(opts, z.WithIssueFormatter(func(e *z.ZogIssue, c z.Ctx) { e.SetMessage("F:" + e.Code) }))
+		}
+		var msgs []string
+		add := func(l z.ZogIssueList) {
+			for _, e := range l {
+				msgs = append(msgs, e.Message)
+			}
+		}
+		addM := func(m z.ZogIssueMap) {
+			for k, l := range m {
+				if k != "$first" {
+					add(l)
+				}
+			}
+		}
+		validate := v.Choice("validate", 2) == 1
+		root := v.Choice("root", 10)
+		t0 := time.Unix(1000, 0).UTC()
+		switch root {
+		case 0:
+			d := 5
+			if validate {
+				add(z.Int().GT(100).Validate(&d, opts...))
+			} else {
+				add(z.Int().GT(100).Parse(5, &d, opts...))
+			}
+		case 1:
+			d := 5.0
+			if validate {
+				add(z.Float64().GT(100).Validate(&d, opts...))
+			} else {
+				add(z.Float64().GT(100).Parse(5, &d, opts...))
+			}
+		case 2:
+			d := "ab"
+			if validate {
+				add(z.String().Min(5).Validate(&d, opts...))
+			} else {
+				add(z.String().Min(5).Parse("ab", &d, opts...))
+			}
+		case 3:
+			d := true
+			if validate {
+				add(z.Bool().False().Validate(&d, opts...))
+			} else {
+				add(z.Bool().False().Parse(true, &d, opts...))
+			}
+		case 4:
+			d := time.Unix(5, 0).UTC()
+			if validate {
+				add(z.Time().After(t0).Validate(&d, opts...))
+			} else {
+				add(z.Time().After(t0).Parse(d, &d, opts...))
+			}
+		case 5:
+			d := []int{1}
+			if validate {
+				addM(z.Slice(z.Int()).Min(3).Validate(&d, opts...))
+			} else {
+				addM(z.Slice(z.Int()).Min(3).Parse([]any{1}, &d, opts...))
+			}
+		case 6:
+			var d struct{ A int }
+			d.A = 5
+			if validate {
+				addM(z.Struct(z.Schema{"a": z.Int().GT(100)}).Validate(&d, opts...))
+			} else {
+				addM(z.Struct(z.Schema{"a": z.Int().GT(100)}).Parse(map[string]any{"a": 5}, &d, opts...))
+			}
+		case 7:
+			var d *int
+			if validate {
+				addM(z.Ptr(z.Int()).NotNil().Validate(&d, opts...))
+			} else {
+				addM(z.Ptr(z.Int()).NotNil().Parse(nil, &d, opts...))
+			}
+		case 8:
+			d := 5
+			cf := z.CustomFunc(func(p *int, c z.Ctx) bool { return false })
+			if validate {
+				add(cf.Validate(&d, opts...))
+			} else {
+				add(cf.Parse(5, &d, opts...))
+			}
+		default:
+			d := 5
+			if validate {
+				add(z.Preprocess(func(n *int, c z.Ctx) (int, error) { return *n, nil }, z.Int().GT(100)).Validate(&d, opts...))
+			} else {
+				add(z.Preprocess(func(n int, c z.Ctx) (int, error) { return n, nil }, z.Int().GT(100)).Parse(5, &d, opts...))
+			}
+		}
+		conf.IssueFormatter = old
+		v.Assert(len(msgs) == 1, "C11:expected-exactly-one-issue")
+		v.Assert(len(msgs) == 1 && len(msgs[0]) >= 2 && msgs[0][:2] == "F:", "C11:message-precedence")
+		v.Cover("precedence-case")
+	case "i18n-reinstall":
+		// every installation of i18n stands alone: the language key option of an earlier
+		// installation does not carry over to a later one
+		old := conf.IssueFormatter
+		langs := map[string]zconst.LangMap{"en": en.Map, "es": es.Map}
+		wantEn := strings.ReplaceAll(en.Map["string"]["min"], "{{min}}", "5")
+		wantEs := strings.ReplaceAll(es.Map["string"]["min"], "{{min}}", "5")
+		var d string
+		i18n.SetLanguagesErrsMap(langs, "en", i18n.WithLangKey("locale"))
+		e1 := z.String().Min(5).Parse("ab", &d, z.WithCtxValue("locale", "es"))
+		e2 := z.String().Min(5).Parse("ab", &d, z.WithCtxValue("lang", "es"))
+		i18n.SetLanguagesErrsMap(langs, "en")
+		e3 := z.String().Min(5).Parse("ab", &d, z.WithCtxValue("lang", "es"))
+		e4 := z.String().Min(5).Parse("ab", &d, z.WithCtxValue("locale", "es"))
+		conf.IssueFormatter = old
+		v.Assert(len(e1) == 1 && len(e2) == 1 && len(e3) == 1 && len(e4) == 1, "C11:expected-exactly-one-issue")
+		v.Assert(e1[0].Message == wantEs && e2[0].Message == wantEn, "C11:language-selection")
+		v.Assert(e3[0].Message == wantEs && e4[0].Message == wantEn, "C11:language-selection")
+		v.Cover("precedence-case")
 	case "i18n":
 		old := conf.IssueFormatter
 		def := []string{"en", "es"}[v.Choice("default-lang", 2)]
